@@ -164,7 +164,9 @@ fn gen(rng: &mut Rng, sane: bool) -> (KeyspaceCreateOptions, Spec) {
         } else {
             *rng.pick(&[1u64, 4_096, 64 << 20, u64::MAX])
         };
-        let ratios: Vec<f32> = (0..plen(rng))
+        // (the ratio vector has no length limit in the builder, unlike the per-level policies)
+        let n_ratios = if !sane && rng.chance(1, 24) { *rng.pick(&[256usize, 300]) } else { plen(rng) };
+        let ratios: Vec<f32> = (0..n_ratios)
             .map(|_| if sane { *rng.pick(&[2.0f32, 8.0, 10.0]) } else { f32_boundary(rng, false) })
             .collect();
         Arc::new(
@@ -277,6 +279,15 @@ fn observe(ks: &fjall::Keyspace) -> Spec {
         }),
         sane: true,
     }
+}
+
+/// Number of entries of the Leveled level-ratio vector in a strategy's stored form (1 length byte + 4 bytes per entry).
+fn ratio_entries(s: &Spec) -> Option<usize> {
+    s.strategy
+        .1
+        .iter()
+        .find(|(k, _)| k.ends_with(b"level_ratio_policy"))
+        .map(|(_, v)| v.len().saturating_sub(1) / 4)
 }
 
 fn diff(a: &Spec, b: &Spec) -> Option<String> {
@@ -480,6 +491,18 @@ fn case(idx: u64, seed: u64, stats: &mut Counts) -> R<(String, bool)> {
                     .map_err(|e| Deviation::new("unexpected-error:keyspace", format!("{e:?}")))?;
                 let now = observe(&ks);
                 if let Some(d) = diff(spec, &now) {
+                    if d.starts_with("strategy:") {
+                        if let Some(n) = ratio_entries(spec).filter(|n| *n > 255) {
+                            // explained-by predicate F10: the vector's length is stored in 8 bits (lsm-tree)
+                            return Err(Deviation::new(
+                                "known:leveled-ratio-vector-length-truncated",
+                                format!(
+                                    "keyspace {name} after reopen {round}: a Leveled level-ratio vector of {n} entries comes back with {} entries",
+                                    ratio_entries(&now).unwrap_or(0)
+                                ),
+                            ));
+                        }
+                    }
                     return Err(Deviation::new(
                         "options:not-in-force-after-reopen",
                         format!("keyspace {name} after reopen {round}: {d}"),
